@@ -78,11 +78,13 @@ class H(bf.Family):
                     ops.apply(ww, ('new_batch', 'u1', 't1', 0, 0))
                     for l in bf.SCRIPTS[u1]:
                         self._do(ww, l)
-                for l in pre:   # setups whose `pre` already opens an update are not compared (later updates get different ids)
-                    self._do(w, l)
+                opens = any(l[0] == 'new_update' for l in pre)  # such setups are not compared (later updates get different ids)
+                for l in pre:
+                    for ww in ((w,) if opens else (w, w.shadow)):
+                        self._do(ww, l)
                 w.script, w.pos = u2, 0
                 w.shadow.script, w.shadow.pos = None, 0
-                w.shadow_on = not pre and bool(bf.SCRIPTS[u2])
+                w.shadow_on = not opens and bool(bf.SCRIPTS[u2])
 
             res.append(([('setup', name)], setup))
         return res
